@@ -152,6 +152,8 @@ def run(sc, tier, seed):
     cfg = "BatchSchedule_quick.cfg" if tier == "quick" else "BatchSchedule_thorough.cfg"
     R.add_model(V.model_check(sc, "BatchSchedule", "BatchScheduleMC.tla", cfg, workers=8, timeout=1500))
     if tier == "thorough":
+        # query part alone with four kinds of user time predicates (14 202 condition texts, one operation)
+        R.add_model(V.model_check(sc, "BatchSchedule", "BatchScheduleMC.tla", "BatchSchedule_thorough_ut.cfg", workers=8, timeout=1500))
         # query part alone, one more nesting level (all 2776 shapes of depth <= 3 over one predicate name)
         R.add_model(V.model_check(sc, "BatchSchedule", "BatchScheduleMC.tla", "BatchSchedule_thorough_d3.cfg", workers=4, timeout=900))
     neg = {}
